@@ -70,6 +70,15 @@ Base1 == <<F(1, "varint", "v3"), F(4, "varint", "v2"), M(2, Meta1), M(3, DBIa), 
 Base2 == <<F(1, "varint", "v3"), M(2, Meta1), M(3, DBIc), M(3, DBId)>>
 Base3 == <<F(1, "varint", "v1")>>
 Bases == {Base1, Base2, Base3}
+(* sizes beyond the buffer growth steps of the encoder (10 MiB, then doubling) and contents that compress far     *)
+(* better than 1:10 (zero bytes); exported as they are, without re-encodings                                        *)
+KVbig   == <<F(1, "len", "b3#kb"), F(2, "len", "b11M#vb"), F(3, "fix64", "v5")>>
+KVnear  == <<F(1, "len", "b3#kn"), F(2, "len", "b9M#vn"), F(3, "fix64", "v6")>>
+KVzero  == <<F(1, "len", "b3#kz"), F(2, "len", "z2M#vz"), F(3, "fix64", "v7")>>
+KVzero2 == <<F(1, "len", "z64#kz2"), F(2, "len", "z300000#vz2")>>
+BigBases == { <<F(1, "varint", "v3"), M(2, Meta1), M(3, <<F(1, "len", "b2#nb"), M(2, KVbig)>>)>>,                 \* the first entry already exceeds the first buffer
+              <<F(1, "varint", "v3"), M(2, Meta1), M(3, <<F(1, "len", "b2#nc"), M(2, KV1), M(2, KVnear), M(2, KVbig), M(2, KV2)>>)>>,  \* a nearly full 10 MiB buffer, then 11 MiB
+              <<F(1, "varint", "v3"), M(2, Meta1), M(3, <<F(1, "len", "b2#nz"), M(2, KVzero), M(2, KVzero2), M(2, KV1)>>)>> }          \* compresses better than 1:100
 
 (* unknown fields of every wire type, with 1- and 2-byte tags *)
 Unknowns == {F(15, "varint", "v128"), F(16, "varint", "vMaxU64"), F(2047, "len", "b0#u"), F(9, "len", "b200#u2"),
@@ -142,6 +151,7 @@ HostileRejected == \A h \in Hostile \cup Truncated : ~Content(h).ok
 ASSUME HostileRejected
 
 Rows == UNION {{[tree |-> v, want |-> Content(v)] : v \in Variants(b)} : b \in Bases}
+        \cup {[tree |-> b, want |-> Content(b)] : b \in BigBases}
 HostileRows == {[tree |-> h, want |-> Content(h)] : h \in Hostile}
 TruncatedRows == {[tree |-> h, want |-> Content(h)] : h \in Truncated}
 ASSUME JsonSerialize("wire_rows.json", SetToSeq(Rows))
